@@ -1130,6 +1130,10 @@ func (st *State) randCall(fn *ssa.Function, name string, args []Value) (Value, b
 	case "New":
 		return Ptr{obj: st.newObj([]Value{ts.BV(64, 0)}, "rand.Rand")}, true
 	case "Float64":
+		if fn.Signature.Recv() == nil && st.inLibrary > 0 {
+			// the package-level function draws from (and advances) math/rand's global source: hidden shared state
+			st.globalWrites = append(st.globalWrites, "math/rand global source")
+		}
 		// an arbitrary draw in [0,1): named so that the native replay can feed it through a scripted source
 		k := 0
 		for _, in := range st.inputs {
